@@ -544,6 +544,17 @@ def boundary_cases():
     vec = {"tensors": [[5, 5, [2], [3], 1], [-1, -1, [2], [3], None]], "bonds": [[3, 3, [-1, 5]]]}
     yield {"op": "net.history", "nets": [{"net": weak, "data": [[0, [1, 2], [2]]]}, {"net": vec, "data": [[1, [3, 4], [2]]]}],
            "ops": [["merge", 0, 1, [[0, 0]]]], "malformed": [0]}
+    # an open bond shared by three open legs (and a tensor), joined through ONE of its legs - the fused bond's reference list
+    # interleaves the two networks' tensors; then joined again through another leg; value and consistency after every step
+    hy = {"tensors": [[0, 0, [2, 2], [0, 1], 0], [-1, -1, [2, 2, 2, 2], [0, 0, 0, 1], None]], "bonds": [[0, 0, [-1, -1, -1, 0]], [1, 1, [-1, 0]]]}
+    hz = {"tensors": [[3, 3, [2, 2], [0, 1], 1], [-1, -1, [2, 2, 2], [0, 0, 1], None]], "bonds": [[0, 0, [-1, -1, 3]], [1, 1, [-1, 3]]]}
+    dy_ = [[0, [[1, 2], [3, -1]], [2, 2]]]
+    dz_ = [[1, [[2, -1], [1, 4]], [2, 2]]]
+    for join in ([[0, 0]], [[1, 1]], [[2, 0]], [[0, 0], [1, 1]], [[0, 1], [0, 0]], [[3, 2]]):
+        yield {"op": "net.history", "nets": [{"net": copy.deepcopy(hy), "data": copy.deepcopy(dy_)}, {"net": copy.deepcopy(hz), "data": copy.deepcopy(dz_)}],
+               "ops": [["merge", 0, 1, join], ["transpose", 0, None]]}
+        yield {"op": "net.history", "nets": [{"net": copy.deepcopy(hz), "data": copy.deepcopy(dz_)}, {"net": copy.deepcopy(hy), "data": copy.deepcopy(dy_)}],
+               "ops": [["rename_tensor", 0, 3, -5], ["merge", 0, 1, [[b, a] for a, b in join]]]}
     clash = copy.deepcopy(nets)
     clash[1]["data"][0][0] = 0
     clash[1]["net"]["tensors"][0][4] = 0
